@@ -294,6 +294,14 @@ example : (step (run init [.enabledNew true, .recv .message, .recv .nonza, .recv
 example : 0 ∈ reportedIds (run init [.enabledNew true, .send true true, .send true true, .ack 1]).2 := by decide
 example : pktsOf (run (run init [.enabledNew true, .send true true, .send true true, .ack 1]).1
     [.sessionClosed, .resumed 1 true]).2 = [1] := by decide
+-- acked_if_covered: stream management on, packet 0 stored under number 1, `<a h=1/>` covers it
+example : (run init [.enabledNew true, .send true true, .send true true]).1.enabled = true ∧
+    (1, 0) ∈ (run init [.enabledNew true, .send true true, .send true true]).1.unacked := by decide
+-- h theorems: an `<a/>` and a `<resume/>` are really written after histories meeting the hypotheses
+example : Out.wire (.a 2) ∈ (step (run init [.enabledNew true, .recv .message, .sessionClosed,
+    .resumed 0 true, .recv .iq]).1 (.ackReq true)).2 := by decide
+example : Out.wire (.resume 1) ∈ (step (run init [.enabledNew true, .recv .presence, .recv .nonza,
+    .sessionClosed]).1 (.resumeReq true)).2 := by decide
 -- partial h theorem: hypothesis met with a non-zero count
 example : stanzasOffSession [.enabledNew true, .recv .message, .sessionClosed, .resumed 0 true, .recv .iq] = 0
     ∧ stanzasOnSession [.enabledNew true, .recv .message, .sessionClosed, .resumed 0 true, .recv .iq] = 2 := by decide
